@@ -525,6 +525,7 @@ func TestC29(t *testing.T) {
 	exploreE2(t, run, agg)
 	slow := slowPeer(t, run)
 	replaced := replacedStream(t, run)
+	window := windowOrders(t, run)
 	agg.Finish(false)
 	agg.RequireTag("handler ran")
 	if run.NViolations() == 0 && (statInv.Load() == 0 || statUnsub.Load() == 0 || statRaceEvent.Load() == 0) {
@@ -534,6 +535,7 @@ func TestC29(t *testing.T) {
 	run.Cov["opener_rule"] = opener
 	run.Cov["slow_peer"] = slow
 	run.Cov["replaced_stream"] = replaced
+	run.Cov["subscribe_release_attach_orders"] = window
 	run.Cov["evaluations"] = opener["evaluations"]
 	run.Cov["distinct_nontrivial"] = opener["distinct_nontrivial"]
 	run.Cov["rule"] = opener["rule"]
